@@ -642,7 +642,7 @@ def group0 : Cw4Group.State :=
   | .error _ => Cw4Group.State.empty
 
 def token0 : Cw20.State :=
-  { supply := 0, mint := none, balances := [], allow := [], allowSp := [], version := ⟨"crates.io:cw20-base", 2, 0, 0⟩ }
+  { supply := 0, mint := none, balances := [], allow := [], allowSp := [], version := ⟨"crates.io:cw20-base", 2, 0, 0, none⟩ }
 
 def inst : InstMsg :=
   { group := ⟨true, "grp"⟩, threshold := .absoluteCount 3, maxVotingPeriod := .height 5, executor := none,
@@ -710,7 +710,7 @@ namespace Cex20
 
 /-- a cw20 deposit token in which `a` holds 20 -/
 def token0 : Cw20.State :=
-  { supply := 20, mint := none, balances := [("a", 20)], allow := [], allowSp := [], version := ⟨"crates.io:cw20-base", 2, 0, 0⟩ }
+  { supply := 20, mint := none, balances := [("a", 20)], allow := [], allowSp := [], version := ⟨"crates.io:cw20-base", 2, 0, 0, none⟩ }
 
 /-- deposit: 5 units of the cw20 token at `tok`, refunds of failed proposals enabled -/
 def inst : InstMsg :=
@@ -1848,7 +1848,7 @@ def opsSelf : List Op :=
 /-- a cw20 token in which `a` holds 20 and the multisig has granted `x` an allowance of 5 -/
 def tokenGrant : Cw20.State :=
   { supply := 20, mint := none, balances := [("a", 20)], allow := [(("ms", "x"), ⟨5, .never⟩)],
-    allowSp := [(("x", "ms"), ⟨5, .never⟩)], version := ⟨"crates.io:cw20-base", 2, 0, 0⟩ }
+    allowSp := [(("x", "ms"), ⟨5, .never⟩)], version := ⟨"crates.io:cw20-base", 2, 0, 0, none⟩ }
 
 def worldGrant : World := World.init Cex20.flex0 Cex.group0 tokenGrant [] "ms" "grp" "tok" 5
 
